@@ -87,7 +87,7 @@ package jobqueuecontroller
 //@   ensures [C05] start-only-after-cas: jwN > old(jwN) ==> old(activejobstore.active(storeOf(store), string(rjc.UID))) == oldCount
 //@   ensures [C05] monotone: jwN >= old(jwN) && clock >= old(clock)
 //@   ensures [C05,C07] at-most-one-write-and-it-is-a-start: jwN <= old(jwN) + 1 && (jwN == old(jwN) + 1 ==> isStartWrite(old(jwN), rj))
-//@   ensures [C05,C20] rollback-on-error: result != nil ==> (forall k string :: activejobstore.active(storeOf(store), k) == old(activejobstore.active(storeOf(store), k)))
+//@   ensures [C05,C06,C20] rollback-on-error: result != nil ==> (forall k string :: activejobstore.active(storeOf(store), k) == old(activejobstore.active(storeOf(store), k)))
 //@   ensures [C05] counted-on-success: result == nil ==> jwN == old(jwN) + 1 && jwOK[old(jwN)]
 //@        && (forall k string :: activejobstore.active(storeOf(store), k) == (k == string(rjc.UID) ? oldCount + 1 : old(activejobstore.active(storeOf(store), k))))
 //@   ensures [C05] log-append-only: forall i int :: i < old(jwN) ==> jwKind[i] == old(jwKind[i]) && jwObj[i] == old(jwObj[i]) && jwOK[i] == old(jwOK[i])
